@@ -366,6 +366,8 @@ class Check:
                             ok_all = False
                             self.proof_break(f"theorem {t} depends on unlisted axioms {a}", str(a))
                     self.cov["discharged"] = n
+                if ok_all and self.tier == "thorough":
+                    self.coqchk()
             else:
                 # count obligations from the source text even when the build broke
                 p = os.path.join(COQ, f"theories/Props/{self.prop}.v")
@@ -377,6 +379,31 @@ class Check:
                                    f"&& coqc -Q theories DA theories/Props/{self.prop}.v   (Coq 8.16.1 kernel; Print Assumptions parsed)")
         self.proof_ok = ok_all
         return ok_all
+
+    def coqchk(self):
+        """thorough tier: re-check the compiled closure of Props/<prop>.vo with Coq's independent checker and record the axioms,
+        type-in-type / unsafe-fixpoint / assumed-positivity lists it prints (all must be <none>).  A checker that does not finish
+        (time, memory) is recorded as such and is not a break: the kernel has already accepted the files."""
+        try:
+            r = subprocess.run(["timeout", "1500", "coqchk", "-silent", "-o", "-Q", "theories", "DA", f"DA.Props.{self.prop}"],
+                               cwd=COQ, capture_output=True, text=True)
+        except Exception as e:          # noqa
+            self.cov["coqchk"] = {"status": f"not run: {e}"}
+            return
+        out = r.stdout + r.stderr
+        summ = {}
+        for key, lab in (("axioms", "Axioms"), ("type_in_type", "Constants/Inductives relying on type-in-type"),
+                         ("unsafe_fixpoints", "Constants/Inductives relying on unsafe (co)fixpoints"), ("assumed_positivity", "Inductives whose positivity is assumed")):
+            m = re.search(r"\* " + re.escape(lab) + r":(.*?)(?=\n\s*\n\* |\Z)", out, re.S)
+            summ[key] = " ".join(m.group(1).split()) if m else None
+        self.cov["coqchk"] = {"cmd": f"coqchk -silent -o -Q theories DA DA.Props.{self.prop}", "exit": r.returncode, **summ}
+        if r.returncode in (124, 137) or (r.returncode != 0 and "CONTEXT SUMMARY" not in out and re.search(r"memory|Stack overflow|Killed", out)):
+            self.cov["coqchk"]["status"] = "did not finish (time/memory); not a break"
+            return
+        if r.returncode != 0:
+            self.proof_break(f"coqchk rejects the compiled closure of Props/{self.prop}.vo", out[-2000:])
+        elif any(v not in ("<none>",) for v in summ.values()):
+            self.proof_break(f"coqchk reports assumptions for Props/{self.prop}.vo: {summ}", out[-2000:])
 
     def proof_break(self, what, detail):
         self.pending_breaks = getattr(self, "pending_breaks", [])
